@@ -346,7 +346,10 @@ CHECKS["C14"] = {
             "threads run 1-3 complete read operations (lock_shared / try forms, dereference, snapshot copy, lock_read / begin / full traversal, "
             "release) under random schedules; then the early handle is released, the writer is resumed and must finish. Violations: a reader "
             "that cannot run to completion (no runnable thread / step budget) while the writer is frozen, a contended lock, condition wait or "
-            "spin-yield inside a read acquisition, a writer that does not finish. Non-trivial: the writer was actually frozen in the round; "
+            "spin-yield inside a read acquisition, a writer that does not finish. 'late' mode: an early handle makes the lr writer wait, a "
+            "second handle is taken only once the writer spins and is kept until the writer has finished (a writer may be delayed only by "
+            "handles still held from before its switch): the round must terminate. Non-trivial: the writer was actually frozen in the round "
+            "(late mode: every round); "
             "distinct = (writer op, early handle, k, schedule signature).",
     "assumptions": ["the suspension points of each writer operation are enumerated completely (up to the cap inside spin loops); reader scripts and "
                     "schedules are sampled", "suspension is simulated by the serialized scheduler: only scheduling points (shim hooks) are suspension points"],
@@ -354,6 +357,8 @@ CHECKS["C14"] = {
     "runs": [
         {"variant": "plain", "engine": "serial", "procs_quick": 6, "procs_thorough": 12, "rounds_quick": 4, "rounds_thorough": 60},
         {"variant": "asan", "engine": "serial", "procs_quick": 2, "procs_thorough": 4, "rounds_quick": 2, "rounds_thorough": 20},
+        {"variant": "plain", "engine": "serial", "mode": "late", "procs": 2, "rounds_quick": 1500, "rounds_thorough": 30000},
+        {"variant": "plain", "engine": "stress", "mode": "late", "procs": 2, "rounds_quick": 600, "rounds_thorough": 10000},
     ],
 }
 
